@@ -402,10 +402,17 @@ fn determinism_selfcheck() -> Result<(), String> {
         "5f3560e01c8063a000000014601a578063a000000114602457005b505f545f5260205ff35b5060015f5260205f2060043501545f5260205ff3",
     ];
     let mut logged = 0usize;
+    // the self-check must end even when the subject does not (that is for the checks to report): a step budget with a
+    // deadline; a program on which the analysis is stopped is skipped
+    let budgeted = || crate::obs::CountingWatchdog::with_deadline(1000, Some(200), 10);
+    let _ = lazy;
     for h in programs {
         let code = crate::util::unhex(h);
-        let a = analyze(&code, storage_layout_extractor::vm::Config::default(), &Vec::new(), lazy());
-        let b = analyze(&code, storage_layout_extractor::vm::Config::default(), &Vec::new(), lazy());
+        let a = analyze(&code, storage_layout_extractor::vm::Config::default(), &Vec::new(), budgeted());
+        if a.class == crate::obs::Class::ErrStopped {
+            continue;
+        }
+        let b = analyze(&code, storage_layout_extractor::vm::Config::default(), &Vec::new(), budgeted());
         if a.canon() != b.canon() || a.log != b.log {
             return Err(format!("two canonical runs of {h} differ: {} vs {}", a.canon(), b.canon()));
         }
@@ -418,8 +425,8 @@ fn determinism_selfcheck() -> Result<(), String> {
         logged += a.log.len();
         if let Some(p) = a.log.iter().find(|p| p.len >= 2) {
             let plan = vec![((p.site.to_string(), p.occurrence), Perm::Reverse)];
-            let c = analyze(&code, storage_layout_extractor::vm::Config::default(), &plan, lazy());
-            let d = analyze(&code, storage_layout_extractor::vm::Config::default(), &plan, lazy());
+            let c = analyze(&code, storage_layout_extractor::vm::Config::default(), &plan, budgeted());
+            let d = analyze(&code, storage_layout_extractor::vm::Config::default(), &plan, budgeted());
             if c.canon() != d.canon() || c.log != d.log || !c.plan_errors.is_empty() {
                 return Err(format!("replaying a one-deviation plan on {h} is not reproducible"));
             }
